@@ -124,6 +124,48 @@ def check_value_string_sim(chk):
     return n, probs
 
 
+def check_literals_concrete(chk):
+    """C13.L by evaluation: the text value_string prints for a non-negative finite number, handed to parse_expression (both evaluated on the concrete value), is a number
+    literal denoting that number"""
+    from ..absint import Interp, RaiseSig, reify
+    vmod = chk.repo.module('value')
+    pmod = chk.repo.module('parser')
+    f_str = vmod.func('value_string', 'C13.L')
+    f_parse = pmod.func('parse_expression', 'C13.L')
+    vit = Interp(vmod, 'C13.L')
+    vit.repo = chk.repo
+    pit = Interp(pmod, 'C13.L')
+    pit.repo = chk.repo
+    pit.max_depth = 60
+    n = 0
+    extra = [2.0 ** 53, 2.0 ** 53 + 2, 9999999999999998.0, 4503599627370497.0, 9007199254740991.0, 2 ** 53, 2 ** 53 + 2, 123456789012.0, 1e15 - 1, 3.0e15]
+    for v in [x for x in NUMBER_SAMPLES + extra if x >= 0 and not (isinstance(x, int) and x > 2 ** 60) and str(x) != '-0.0']:
+        vit.depth = pit.depth = 0
+        try:
+            text = vit.call_function(f_str, [v], f_str)
+        except RaiseSig:
+            continue            # C13.D's business
+        if not isinstance(text, str):
+            raise Unrecognised('C13.L', f'value_string({v!r}) evaluates to the non-text value {text!r}', vmod.rel)
+        n += 1
+        try:
+            got = reify(pit.call_function(f_parse, [text], f_parse))
+        except RaiseSig as sig:
+            chk.bad('C13.L', pmod, 'parse_expression', f'printed number rejected: {sig.cls}', f'the number {v!r} prints as {text!r}, and parse_expression({text!r}) raises {sig.cls}{tuple(sig.args_)[:1]!r}: '
+                    f'text the runtime prints for a number is not accepted back as a literal', node=f_parse)
+            return
+        num = got.get('number') if isinstance(got, dict) and set(got) == {'number'} else None
+        if isinstance(num, bool) or not isinstance(num, (int, float)):
+            if isinstance(got, Sym) or (isinstance(got, dict) and any(isinstance(x, Sym) for x in got.values())):
+                raise Unrecognised('C13.L', f'parse_expression({text!r}) evaluates to {got!r}', pmod.rel)
+            chk.bad('C13.L', pmod, 'parse_expression', 'printed number is not a number literal', f'the number {v!r} prints as {text!r}, and parse_expression({text!r}) gives {got!r}, not a number literal', node=f_parse)
+            return
+        if num != v:
+            chk.bad('C13.L', pmod, 'parse_expression', 'printed number denotes another number', f'the number {v!r} prints as {text!r}, and parse_expression({text!r}) gives the number {num!r}', node=f_parse)
+            return
+    chk.ok('C13.L', f'{n} non-negative sample numbers (incl. integral doubles around 2**53 and up to 1e16 that print as plain digits): parse_expression(value_string(x)) is the number literal x (both evaluated)', count=n)
+
+
 def report_value_string_sim(chk):
     sim = None
     try:
@@ -366,6 +408,7 @@ def run(chk):
         if name:
             chk.guard('C13.C', check_cleanup, chk, name)
     chk.guard('C13.D', check_sites, chk)
+    chk.guard('C13.L', check_literals_concrete, chk)
     chk.guard('C13.L', check_literal_language, chk)
     chk.guard('C13.N', check_parsers, chk)
     from .c02 import check_number_literals
